@@ -228,6 +228,22 @@ def master_specs(fam):
         drop = (fam.get("drop_kerning") or {}).get(str(i)) or []
         if drop:
             sp["kerning"] = [p for j, p in enumerate(sp["kerning"]) if j not in drop]
+        for tw in fam.get("tweaks", []):
+            if tw["master"] != i:
+                continue
+            g = next((g for g in sp["glyphs"] if g["name"] == tw["glyph"]), None)
+            if g is None:
+                continue
+            if tw["kind"] == "diff2x2" and tw["comp"] < len(g.get("components", [])):
+                t = list(g["components"][tw["comp"]]["t"])
+                t[0] *= tw["factor"]
+                t[3] *= tw.get("factor_y", 1)
+                g["components"][tw["comp"]]["t"] = t
+            elif tw["kind"] == "zero-length" and tw["contour"] < len(g.get("contours", [])):
+                c = g["contours"][tw["contour"]]
+                j = tw["point"]
+                if 0 < j < len(c) - 1 and c[j][2] == "line" and c[j - 1][2] is not None:
+                    c[j] = [c[j - 1][0], c[j - 1][1], c[j][2]]   # interior line of zero length in this master only
         out.append(sp)
     return out
 
